@@ -33,6 +33,9 @@ type c16Conn struct {
 }
 type c16Case struct {
 	Conns []c16Conn `json:"connections"`
+	// SecondShutdownMs > 0: Shutdown is called a second time, that long after the first call began (possibly while the
+	// first is still draining): whichever call returns, what "after shutdown returns" promises must hold at that instant
+	SecondShutdownMs int `json:"second_shutdown_after_ms,omitempty"`
 }
 
 type ctxConnID struct{}
@@ -273,6 +276,25 @@ func c16Bubble(c c16Case) c08Result {
 		synctest.Wait()
 		close(release)
 	}
+	secondBad := make(chan string, 1)
+	if c.SecondShutdownMs > 0 {
+		go func() {
+			time.Sleep(time.Duration(c.SecondShutdownMs) * time.Millisecond)
+			_ = srv.Shutdown()
+			lg.mu.Lock()
+			defer lg.mu.Unlock()
+			if lg.running != 0 {
+				secondBad <- fmt.Sprintf("the second Shutdown call (made %d ms after the first) returned %.1f s after shutdown began while %d handler(s) were still running", c.SecondShutdownMs, time.Since(t0).Seconds(), lg.running)
+				return
+			}
+			for id, n := range lg.connects {
+				if n > 0 && lg.terminates[id] == 0 {
+					secondBad <- fmt.Sprintf("the second Shutdown call (made %d ms after the first) returned %.1f s after shutdown began although connection %d has not been terminated (connect hook succeeded, terminate hook has not run)", c.SecondShutdownMs, time.Since(t0).Seconds(), id)
+					return
+				}
+			}
+		}()
+	}
 	// clients that connect while the server shuts down
 	for _, cl := range clients {
 		if cl.spec.Phase == "connecting" || cl.spec.Phase == "accepted-held" {
@@ -417,6 +439,15 @@ func c16Bubble(c c16Case) c08Result {
 	if lg.terminates[-1] != 0 {
 		return fail("terminate-hook-after-failed-connect", "terminate hook ran %d times with a context the connect hook never produced", lg.terminates[-1])
 	}
+	if c.SecondShutdownMs > 0 {
+		time.Sleep(time.Duration(c.SecondShutdownMs) * time.Millisecond) // the second call has certainly been made and, the server being down, returned
+		synctest.Wait()
+		select {
+		case msg := <-secondBad:
+			return fail("second-shutdown-returns-early", "%s", msg)
+		default:
+		}
+	}
 	// all clients go away
 	for _, cl := range clients {
 		if cl.p != nil {
@@ -432,7 +463,7 @@ func c16Bubble(c c16Case) c08Result {
 func TestC16Shutdown(t *testing.T) {
 	const name = "TestC16Shutdown"
 	rec := evid.New("C16", name, "0..6 connections, each in a drawn phase when Shutdown is called (idle, partial message sent, request in a handler of 0 / 1 s / 2.9 s / 3.1 s / 10 s honouring or ignoring its context, response blocked on a non-reading client, "+
-		"connecting during shutdown, accepted but not yet registered by the accept loop when Shutdown starts (the loop is held at a yield point and released once Shutdown waits or has returned), already closed, connect hook failing), with 0..2 completed requests before and an optional client action (send more / close) at 0.5 / 2 / 3.5 s after shutdown began; synctest bubble (the 3 s grace period is exact and free); "+
+		"connecting during shutdown, accepted but not yet registered by the accept loop when Shutdown starts (the loop is held at a yield point and released once Shutdown waits or has returned), already closed, connect hook failing), optionally a second, overlapping Shutdown call 1 / 500 / 2000 / 3500 ms after the first, with 0..2 completed requests before and an optional client action (send more / close) at 0.5 / 2 / 3.5 s after shutdown began; synctest bubble (the 3 s grace period is exact and free); "+
 		"oracle at the instant Shutdown returns and after 5 more seconds: listener closed, Serve returned ErrShutdown, no handler running or started later, census 0, every in-flight request answered or cancelled no earlier than 3 s, exactly one terminate hook per successful connect hook after the connection's last handler, none otherwise; "+
 		"non-trivial = a connection mid-handler and another connection in a different phase; distinct by case").Attach(t)
 	if rp := evid.LoadReplay(name); rp != nil {
@@ -465,8 +496,12 @@ func TestC16Shutdown(t *testing.T) {
 			}
 			c.Conns = append(c.Conns, cc)
 		}
+		if rapid.IntRange(0, 3).Draw(rt, "second-shutdown") == 0 {
+			c.SecondShutdownMs = rapid.SampledFrom([]int{1, 500, 2000, 3500}).Draw(rt, "second-shutdown-ms")
+		}
 		key, _ := json.Marshal(c)
 		var labels []string
+		labels = append(labels, fmt.Sprintf("second-shutdown=%v", c.SecondShutdownMs > 0))
 		for _, cc := range c.Conns {
 			labels = append(labels, "phase="+cc.Phase)
 		}
